@@ -1122,7 +1122,7 @@ func main() {
 	// ---------------- phase 3
 	var qitems []string
 	for i := 0; i < schedules; i++ {
-		qitems = append(qitems, quorumSchedule(rep, tab, r, seed+int64(i)))
+		qitems = append(qitems, quorumSchedule(rep, tab, r, seed+int64(i), i%2 == 1))
 	}
 	lib.WriteCases("Cases_C03_quorum.v", []string{"model.M_ClaimHash", "model.M_AttestExec"}, "quorum_case", qitems, "quorum_mismatch")
 
